@@ -41,6 +41,7 @@ func runC12(p *Prog, r *Report) {
 	c12UnixMilli(p, r)
 	c12RuneErrorWidth(p, r)
 	c12ZoneDropped(p, r)
+	prefixBitsVsConstant(p, r, "R12.8-family-dependent-host-test")
 }
 
 // R12.7: netip.ParseAddr accepts a zoned IPv6 address ("fe80::1%eth0"); netip.PrefixFrom silently drops the zone. A
@@ -792,4 +793,49 @@ func extParseFuncs(p *Prog) map[string]*ssa.Function {
 		})
 	}
 	return evalParse
+}
+
+// prefixBitsVsConstant: whether an IP value is a single host depends on the address family (32 bits for IPv4, 128 for
+// IPv6): the test must compare the prefix length with the address's own bit length. Comparing Prefix.Bits() with the
+// constants 32 or 128 confuses an IPv6 /32 range with an IPv4 host (the printed / encoded form then loses its prefix).
+func prefixBitsVsConstant(p *Prog, r *Report, rule string) {
+	n := 0
+	for _, fn := range p.Funcs {
+		if fnPkgPath(fn) != pTypes {
+			continue
+		}
+		bitsVals := map[ssa.Value]bool{}
+		for _, cl := range callsIn(fn) {
+			if call, ok := cl.(*ssa.Call); ok {
+				if f := call.Call.StaticCallee(); f != nil && fnPkgPath(f) == "net/netip" && f.Name() == "Bits" {
+					bitsVals[call] = true
+				}
+			}
+		}
+		if len(bitsVals) == 0 {
+			continue
+		}
+		forEachInstr(fn, func(in ssa.Instruction) {
+			bo, ok := in.(*ssa.BinOp)
+			if !ok || (bo.Op != token.EQL && bo.Op != token.NEQ) {
+				return
+			}
+			var other ssa.Value
+			switch {
+			case bitsVals[bo.X]:
+				other = bo.Y
+			case bitsVals[bo.Y]:
+				other = bo.X
+			default:
+				return
+			}
+			n++
+			k, isConst := constInt(other)
+			r.Check(!(isConst && (k == 32 || k == 128)), rule, fnQual(fn)+":single-host-test", p.pos(bo.Pos()), "the single-host test compares the prefix length with the address's own bit length",
+				fnShort(fn)+" decides whether an IP value is a single host by comparing its prefix length with the constant "+itoa(int(k))+": an IPv6 /32 range (or an IPv4-sized test on IPv6) is taken for a host and loses its prefix length in this form")
+		})
+	}
+	if n == 0 {
+		r.Undec(rule, "types:single-host-tests", "-", "no single-host test (Prefix.Bits() == …) found in package types (anchor vanished)")
+	}
 }
